@@ -494,12 +494,12 @@ fn slice_op<B: Bitmap + 'static, S: BitmapSlice>(w: &mut World, gm: &GuestMemory
         }
         46..=57 => {
             // stream into memory from in-memory readers
+            // stream contents: a prefix of the complement payload, possibly shorter or (up to 2
+            // bytes) longer than the requested count - every byte that can land differs from memory
             let extra = r.usize_below(3);
-            let mut data = payload[..len].to_vec();
-            data.truncate(len.saturating_sub(if r.chance(1, 4) { r.usize_below(len + 1) } else { 0 }));
-            for _ in 0..extra {
-                data.push(0x42);
-            }
+            let full = w.compl(ri, base + off, len + extra);
+            let keep = if r.chance(1, 4) { r.usize_below(len + 1) } else { len + extra };
+            let data = full[..keep.min(full.len())].to_vec();
             let exact = r.chance(1, 2);
             if r.chance(1, 2) {
                 let mut src = &data[..];
